@@ -657,10 +657,26 @@ def gen_molecule(rng, types, link, nres_max):
     return atoms, edges, {'topo': topo, 'keys': mode, 'nres': nres}
 
 
+def pattern_components(ms):
+    """number of connected components of block_from once the unmapped atoms are removed"""
+    g = nx.Graph()
+    mapped = {f for f, _ in ms['mapping']}
+    g.add_nodes_from(mapped)
+    g.add_edges_from((a, b) for a, b in ms['from_edges'] if a in mapped and b in mapped)
+    return nx.number_connected_components(g) if len(g) else 1
+
+
 def gen_case(rng, nres_max, feat):
-    types, mappings, link = gen_ff(rng, feat)
-    atoms, edges, meta = gen_molecule(rng, types, link, nres_max)
-    return {'atoms': atoms, 'edges': edges, 'mappings': mappings}, meta
+    """A block_from that falls apart (an unmapped atom in its middle) matches once per COMBINATION of
+    residues; with many residues the number of placements explodes (the real code then needs minutes:
+    combinations(all_matches, 2)).  Such force fields are only combined with short molecules."""
+    while True:
+        types, mappings, link = gen_ff(rng, feat)
+        atoms, edges, meta = gen_molecule(rng, types, link, nres_max)
+        worst = max([pattern_components(ms) for ms in mappings] + [1])
+        if meta['nres'] ** worst <= 64:
+            return {'atoms': atoms, 'edges': edges, 'mappings': mappings}, meta
+        chk.count('excluded_explosive_disconnected_block_from')
 
 
 # ----------------------------------------------------------------------------
@@ -683,7 +699,7 @@ if os.path.exists(corpus_file):
     for i, c in enumerate(json.load(open(corpus_file))['cases']):
         cases.append(('corpus-%d-%s' % (i, c.get('name', '')), c['spec'], {'topo': 'corpus', 'keys': 'corpus', 'nres': 0}))
 rng = chk.rng('cases')
-N = int(os.environ.get('C01_N', 5000 if chk.thorough else 450))
+N = int(os.environ.get('C01_N', 4000 if chk.thorough else 450))
 for i in range(N):
     big = chk.thorough and i % 10 == 0
     spec, meta = gen_case(rng, 25 if big else 8, FEAT)
@@ -709,11 +725,18 @@ for cid, spec, meta in cases:
             real = sorted([x for a, f in sorted(((fidx[f], a) for a, f in mt)) for x in (a, f)]
                           for mi, mt in raw if mi == i)
             mlines.append((cid + '-m%d' % i, proto_matches(spec, m), enc(real), len(real)))
-    lines.append(ln)
-    recs.append((cid, spec, meta, status, impl, errs, info, logs))
+    # the executable model is quadratic-to-cubic in the number of placements (association lists, the
+    # connectivity test): cases with very many (overlapping) placements are left to the oracle
+    many = len(raw) > 45
+    lines.append(None if many else ln)
+    recs.append((cid, spec, meta, status, impl, errs, info, logs, ln))
 
-models = chk.drv.ask(lines) if chk.lean_ok else [None] * len(lines)
-for (cid, spec, meta, status, impl, errs, info, logs), ln, mo in zip(recs, lines, models):
+asked = [l for l in lines if l is not None]
+answers = iter(chk.drv.ask(asked) if chk.lean_ok else [None] * len(asked))
+models = [None if l is None else next(answers) for l in lines]
+for (cid, spec, meta, status, impl, errs, info, logs, ln), sent, mo in zip(recs, lines, models):
+    if sent is None:
+        chk.count('model_skipped_more_than_45_placements')
     kinds, other = warn_kinds(logs)
     npl = info.get('placements', 0)
     nontriv = status == 'ok' and ((npl >= 2 and info.get('inter_bonds', 0) >= 1) or info.get('overlap')
@@ -737,5 +760,190 @@ mmodels = chk.drv.ask([l for _, l, _, _ in mlines]) if chk.lean_ok else [None] *
 for (cid, ln, real, n), mo in zip(mlines, mmodels):
     chk.count('matches_compared')
     chk.case(cid, ln, real, mo, [], n >= 2)
+
+# ----------------------------------------------------------------------------
+# modification mappings (oracle only; not in the Lean model): a toy modification mapping that
+# creates a new particle.  Known finding F-C01-3 (do_mapping.py:336, upstream issue #154).
+# ----------------------------------------------------------------------------
+def mod_probe(nres, modified, interleaved, start):
+    from vermouth.molecule import Link
+    ffa = vermouth.forcefield.ForceField(name='c01src')
+    ffb = vermouth.forcefield.ForceField(name='c01tgt')
+    mod_a = Link(force_field=ffa, name='PHOS')
+    mod_a.add_node('C2', atomname='C2', PTM_atom=False, resname='X')
+    mod_a.add_node('P1', atomname='P1', PTM_atom=True, resname='X')
+    mod_a.add_node('P2', atomname='P2', PTM_atom=True, resname='X')
+    mod_a.add_edges_from([('C2', 'P1'), ('P1', 'P2')])
+    mod_b = Link(force_field=ffb, name='PHOS')
+    mod_b.add_node('B1', atomname='B1', PTM_atom=False, resname='X')
+    mod_b.add_node('Q1', atomname='Q1', PTM_atom=True, resname='X')      # the new particle
+    mod_b.add_edge('B1', 'Q1')
+    mol = Molecule(force_field=ffa)
+    prev = None
+    extra = 10 * nres
+    for r in range(nres):
+        a, b = 10 * r, 10 * r + 1
+        mol.add_node(a, resid=start + r, resname='X', atomname='C1', chain='A', element='C')
+        mol.add_node(b, resid=start + r, resname='X', atomname='C2', chain='A', element='C')
+        mol.add_edge(a, b)
+        if prev is not None:
+            mol.add_edge(prev, a)
+        prev = b
+    for r in modified:
+        b = 10 * r + 1
+        if interleaved:
+            p1, p2 = 10 * r + 2, 10 * r + 3
+        else:
+            p1, p2 = extra, extra + 1
+            extra += 2
+        for k, n, el in ((p1, 'P1', 'P'), (p2, 'P2', 'O')):
+            mol.add_node(k, resid=start + r, resname='X', atomname=n, chain='A', element=el, PTM_atom=True,
+                         modifications=[mod_a])
+        mol.nodes[b]['modifications'] = [mod_a]
+        mol.add_edges_from([(b, p1), (p1, p2)])
+    ba = Block(force_field=ffa)
+    ba.name = 'X'
+    ba.add_nodes_from([('C1', {'resid': 1, 'resname': 'X', 'atomname': 'C1'}),
+                       ('C2', {'resid': 1, 'resname': 'X', 'atomname': 'C2'})])
+    ba.add_edge('C1', 'C2')
+    bb = Block(force_field=ffb)
+    bb.name = 'X'
+    bb.add_nodes_from([('B1', {'resid': 1, 'resname': 'X', 'atomname': 'B1'})])
+    mblock = Mapping(ba, bb, mapping={'C1': {'B1': 1}, 'C2': {'B1': 1}}, references={}, ff_from=ffa, ff_to=ffb,
+                     names=('X',))
+    mmod = Mapping(mod_a, mod_b, mapping={'C2': {'B1': 1}, 'P1': {'Q1': 1}, 'P2': {'Q1': 1}}, references={},
+                   ff_from=ffa, ff_to=ffb, names=('PHOS',), type='modification')
+    LOGS.clear()
+    out = do_mapping(mol, {'c01src': {'c01tgt': {'X': mblock, 'PHOS': mmod}}}, ffb, attribute_keep=KEEP,
+                     attribute_must=MUST, attribute_stash=STASH)
+    errs = []
+    b1 = [n for n in out.nodes if out.nodes[n]['atomname'] == 'B1']
+    got = [out.nodes[n].get('resid') for n in b1]
+    if got != list(range(1, nres + 1)):
+        errs.append(('resid_after_modification', 'residues are numbered %r, expected 1..%d' % (got, nres)))
+    for n in out.nodes:
+        if out.nodes[n]['atomname'] != 'Q1':
+            continue
+        host = [x for x in out[n] if out.nodes[x]['atomname'] == 'B1']
+        if len(host) != 1:
+            errs.append(('ptm_placement', 'new particle %r is bonded to %r' % (n, host)))
+        elif out.nodes[n].get('resid') != out.nodes[host[0]].get('resid'):
+            errs.append(('ptm_resid', 'new particle %r has resid %r, the particle it is attached to has %r'
+                         % (n, out.nodes[n].get('resid'), out.nodes[host[0]].get('resid'))))
+        if set(out.nodes[n].get('mapping_weights', {})) != {a for a in mol.nodes
+                                                               if mol.nodes[a].get('PTM_atom') and mol.has_edge(a, a) is False
+                                                               and mol.nodes[a]['resid'] == out.nodes[n].get('_old_resid')}:
+            errs.append(('ptm_weights', 'new particle %r records atoms %r' % (n, sorted(out.nodes[n].get('mapping_weights', {})))))
+    nq = sum(1 for n in out.nodes if out.nodes[n]['atomname'] == 'Q1')
+    if nq != len(modified):
+        errs.append(('ptm_placement', '%d modified residues, %d new particles' % (len(modified), nq)))
+    kinds, other = warn_kinds(LOGS)
+    if kinds[3]:
+        errs.append(('no_silent_loss', 'unexpected unmapped-atom warning'))
+    desc = 'ok ' + enc([[n, out.nodes[n]['atomname'], out.nodes[n].get('resid'), out.nodes[n].get('_old_resid')]
+                        for n in out.nodes])
+    return errs, desc
+
+
+mrng = chk.rng('modification')
+mod_cases = [(5, [2], True, 1), (3, [0], False, 3), (4, [3], True, 1), (3, [1], False, 1)]
+for _ in range(60 if chk.thorough else 12):
+    n = mrng.randint(2, 6)
+    mod_cases.append((n, sorted(mrng.sample(range(n), mrng.randint(1, min(2, n)))), mrng.random() < 0.6,
+                      mrng.choice([1, 1, 3, 10])))
+for i, (n, modified, inter, start) in enumerate(mod_cases):
+    errs, desc = mod_probe(n, modified, inter, start)
+    cl = {c for c, _ in errs}
+    # signature of F-C01-3: a modification mapping creates a new particle (always the case here) and the only
+    # failures are: residue numbers restart after it / the new particle carries the input resid
+    fid = 'F-C01-3' if cl and cl <= {'resid_after_modification', 'ptm_resid'} and 'F-C01-3' in KNOWN_IDS else None
+    chk.count('modification_probe_' + ('fails' if errs else 'passes'))
+    chk.case('modprobe-%d' % i, line('modprobe', n, modified, inter, start), desc, None,
+             ['%s: %s' % e for e in errs], True, finding=fid)
+
+# ----------------------------------------------------------------------------
+# thorough: charmm -> martini3001 on the tier-0 / tier-1 test structures (oracle only)
+# ----------------------------------------------------------------------------
+def real_ff_cases():
+    from pathlib import Path
+    from vermouth import DATA_PATH
+    from vermouth.map_input import read_mapping_directory, generate_all_self_mappings, combine_mappings
+    ffs = vermouth.forcefield.find_force_fields(Path(DATA_PATH) / 'force_fields')
+    maps = read_mapping_directory(Path(DATA_PATH) / 'mappings', ffs)
+    combine_mappings(maps, generate_all_self_mappings(ffs.values()))
+    base = Path(REPO) / 'vermouth' / 'tests' / 'data' / 'integration_tests'
+    block_ids = {id(mp.block_from) for mp in maps['charmm']['martini3001'].values() if mp.type == 'block'}
+    structures = sorted(base.glob('tier-0/*/aa.pdb')) + [base / 'tier-1' / n / 'aa.pdb'
+                                                           for n in ('bpti', '3i40', '1UBQ', 'villin', 'hst5')]
+    for path in structures:
+        if not path.exists():
+            continue
+        system = vermouth.System()
+        vermouth.PDBInput(str(path), exclude=('HOH', 'SOL'), ignh=False, modelidx=1).run_system(system)
+        system.force_field = ffs['charmm']
+        vermouth.MakeBonds(allow_name=True, allow_dist=True, fudge=1.2).run_system(system)
+        vermouth.AnnotateMutMod([['cter', 'C-ter'], ['nter', 'N-ter']], []).run_system(system)
+        vermouth.RepairGraph(delete_unknown=True, include_graph=False).run_system(system)
+        vermouth.CanonicalizeModifications().run_system(system)
+        for mi, mol in enumerate(system.molecules):
+            RECORD.clear()
+            LOGS.clear()
+            out = do_mapping(mol, maps, ffs['martini3001'], attribute_keep=('cgsecstruct', 'chain', 'secstruct'),
+                             attribute_must=('resname',), attribute_stash=('resid',))
+            yield '%s-%s-mol%d' % (path.parent.parent.name, path.parent.name, mi), mol, out, [r for r in RECORD if r[0] in block_ids], list(LOGS)
+
+
+def real_ff_oracle(mol, out, raw, logs):
+    errs = []
+    types = [(lvl, typ) for lvl, typ, _ in logs]
+    resids = [out.nodes[n].get('resid') for n in out.nodes]
+    uniq = sorted(set(resids))
+    if uniq != list(range(1, len(uniq) + 1)):
+        errs.append('resid: residue numbers are not 1..n: %r' % uniq[:10])
+    if any(b < a for a, b in zip(resids, resids[1:])):
+        errs.append('resid: residue numbers decrease along the particle order')
+    cons = {}
+    for n in out.nodes:
+        a = out.nodes[n]
+        w = a.get('mapping_weights', {})
+        g = a.get('graph')
+        cons[n] = set(w)
+        if g is None or set(g.nodes) != set(w):
+            errs.append('weights_exact: particle %r: graph and weight table name different atoms' % (n,))
+        if a.get('_old_resid') not in {mol.nodes[x].get('resid') for x in w}:
+            errs.append('stash_old_resid: particle %r has _old_resid %r, atoms %r' % (n, a.get('_old_resid'), sorted(w)[:4]))
+    placed = [set(a for a, f in mt) for _, mt in raw]
+    shared = set()
+    for a, b in itertools.combinations(range(len(placed)), 2):
+        shared |= placed[a] & placed[b]
+    nodes = list(out.nodes)
+    inter = 0
+    for u, v in itertools.combinations(nodes, 2):
+        if out.nodes[u]['resid'] == out.nodes[v]['resid']:
+            continue
+        bonded = any(mol.has_edge(a, b) for a in cons[u] for b in cons[v])
+        inter += bonded
+        if bonded != out.has_edge(u, v):
+            errs.append('inter_edge: particles %r, %r of different residues: bonded constituents=%s edge=%s'
+                        % (u, v, bonded, out.has_edge(u, v)))
+    contributing = set().union(*cons.values()) if cons else set()
+    lost = [a for a in mol.nodes if a not in contributing and mol.nodes[a].get('element', '') != 'H']
+    if lost and (logging.WARNING, 'unmapped-atom') not in types:
+        errs.append('no_silent_loss: atoms %r in no particle, no warning' % lost[:5])
+    if shared and (logging.WARNING, 'inconsistent-data') not in types:
+        errs.append('overlap_warned: atoms %r in two placements, no warning' % sorted(shared)[:5])
+    dangling = [i for t, l in out.interactions.items() for i in l if any(a not in out for a in i.atoms)]
+    if dangling:
+        errs.append('assemble_block_copy: %d interactions mention absent particles' % len(dangling))
+    return errs, inter
+
+
+if chk.thorough:
+    for cid, mol, out, raw, logs in real_ff_cases():
+        errs, inter = real_ff_oracle(mol, out, raw, logs)
+        chk.count('real_ff_molecules')
+        chk.count('real_ff_particles', len(out))
+        chk.case('realff-' + cid, 'realff ' + cid + ' atoms=%d' % len(mol), 'particles=%d residues=%d inter_bonds=%d'
+                 % (len(out), len({out.nodes[n]['resid'] for n in out.nodes}), inter), None, errs, inter >= 1)
 
 chk.finish()
